@@ -42,7 +42,7 @@ func main() {
 	}
 }
 
-const caseTimeout = 4 * time.Second
+const caseTimeout = 20 * time.Second // generous: the machine may be busy; only a call that never returns gets here
 
 // runWithWatchdog runs f; ok is false if it did not return in time.
 func runWithWatchdog(f func() string) (res string, ok bool) {
